@@ -1,8 +1,10 @@
 (* C09 — broadcasting replicates prefix leaves onto the matching positions.
-   Proved here: the node-level laws of the join on structured treespecs; "least upper bound" and the
-   Python-level replication laws are decided by the correspondence/oracle run (DESIGN §7 C09). *)
+   Proved here: the join on structured treespecs is the least upper bound in the prefix order, it
+   preserves the side conditions, the n-ary left fold is an upper bound of every operand and a fixed
+   point of a second pass; the Python-level replication laws are decided by the correspondence/oracle
+   run (DESIGN §7 C09). *)
 From OptreeModel Require Import Base Tree Flatten Unflatten Spec Ops.
-From OptreeProofs Require Import SpecProofs OrderProofs PrefixOrder JoinOrder JoinLeast FlattenGood.
+From OptreeProofs Require Import SpecProofs OrderProofs PrefixOrder JoinOrder JoinLeast FlattenGood PrefixAntisym JoinFold.
 
 (* a leaf is replaced by the other operand's subtree, whichever side it is on *)
 Theorem C09_join_leaf_l : forall b, st_join st_leaf b = Ok b.
@@ -80,6 +82,36 @@ Proof.
   exact (join_upper_bound (stree_of s1) (stree_of s2) j G1 G2 Hj).
 Qed.
 Print Assumptions C09_broadcast_of_flattened_is_upper_bound.
+
+(* the join of two good treespecs is good again — so joins can be chained *)
+Theorem C09_join_preserves_side_conditions :
+  forall a b j, good a = true -> good b = true -> st_join a b = Ok j -> good j = true.
+Proof. exact join_good. Qed.
+Print Assumptions C09_join_preserves_side_conditions.
+
+(* MORE THAN TWO OPERANDS (ops.py _tree_broadcast_common, first pass): the left fold of joins is an
+   upper bound of every operand, and it exists whenever the operands have any common upper bound *)
+Theorem C09_fold_is_upper_bound :
+  forall l s0 J, good s0 = true -> forallb good l = true -> join_fold s0 l = Ok J ->
+  good J = true /\ fst (st_prefix s0 J) = true /\ Forall (fun s => fst (st_prefix s J) = true) l.
+Proof. exact join_fold_upper_bound. Qed.
+Print Assumptions C09_fold_is_upper_bound.
+
+Theorem C09_fold_exists :
+  forall l s0 u, good s0 = true -> forallb good l = true ->
+  fst (st_prefix s0 u) = true -> Forall (fun s => fst (st_prefix s u) = true) l ->
+  exists J, join_fold s0 l = Ok J /\ fst (st_prefix J u) = true.
+Proof. exact join_fold_exists. Qed.
+Print Assumptions C09_fold_exists.
+
+(* THE SECOND PASS SUFFICES: joining the fold with any operand once more succeeds and gives an
+   equivalent treespec (same tree up to dict kind / key order / deque maxlen) — a fixed point *)
+Theorem C09_second_pass_is_a_fixed_point :
+  forall l s0 J, good s0 = true -> forallb good l = true -> join_fold s0 l = Ok J ->
+  Forall (fun s => exists j, st_join J s = Ok j /\ st_prefix J j = (true, true) /\ st_prefix j J = (true, true))
+         (s0 :: l).
+Proof. exact second_pass_is_a_fixed_point. Qed.
+Print Assumptions C09_second_pass_is_a_fixed_point.
 
 Example C09_example :
   let c := {| c_nil := false; c_ns := 1; c_pred := None;
